@@ -236,6 +236,10 @@ def naming(ctx, prog):
     aw = [a for a in cf.local_nodes(ast.Await) if unparse(a.value) == "blob.verified.wait()"]
     ok = bool(rr) and bool(aw) and cf.must_precede(rr[0], lambda n: n is aw[0]) is None
     ctx.ob("C02-D2/ORDER", ok, cf.site(), "the blob info is returned only after the blob verified", func=cf.fi.qualname)
+    # the ciphertext always goes through the verifying writer: a blob object that is "already verified" (a file of that name and size exists — left over from
+    # a crash, possibly with other content) must not be adopted in place of the bytes just encrypted; get_blob_writer refuses such a file instead
+    for c in [c for c in cf.calls() if unparse(c.func) in ("blob.get_blob_writer", "writer.write")]:
+        R.exact_gate(ctx, "C02-D2/GATE", cf, c, "", f"`{unparse(c.func)}(…)` runs unconditionally for every blob created", key=f"C02-D2/GATE|{cf.fi.qualname}|{unparse(c.func)}|always")
 
 
 def commitments(ctx, prog):
